@@ -336,6 +336,16 @@ impl Params {
         let d = self.inv(&((&a.0 * &a.0 + &a.1 * &a.1 * 2u32) % &self.p));
         ((&a.0 * &d) % &self.p, self.sub(&BigUint::zero(), &(&a.1 * &d)))
     }
+    /// Jacobian (X, Y, Z) on the twist -> affine (X/Z^2, Y/Z^3); used only to read library points.
+    pub fn twist_affine(&self, x: &F2, y: &F2, z: &F2) -> (F2, F2) {
+        let zi = self.i2(z);
+        let zi2 = self.m2(&zi, &zi);
+        (self.m2(x, &zi2), self.m2(y, &self.m2(&zi2, &zi)))
+    }
+    pub fn g2_neg(&self, a: &G2) -> G2 {
+        let zero = (BigUint::zero(), BigUint::zero());
+        a.as_ref().map(|(x, y)| (x.clone(), self.s2(&zero, y)))
+    }
     pub fn g2_on_curve(&self, pt: &G2) -> bool {
         match pt {
             None => false,
